@@ -99,6 +99,18 @@ CLAIMED = {
              "read_message (undecided string obligations) are not claimed. Known findings F-C19-a/b: str values that "
              "look like typed values or contain % do not round-trip (re-proved outside that input class every run).",
         ref="4.C19"),
+    "C14": dict(
+        text="Exhaustive: the OPP CRC-8 table equals polynomial 0x07 at all 256 indices. Proved: calc_crc8_whole_msg/"
+             "calc_crc8_part_msg return the table-driven CRC of exactly the bytes given (loop invariants over a "
+             "recursively defined spec function); read_gen2_inp_resp never changes a switch state for a short frame "
+             "or a frame whose checksum does not match; FAST parse_incoming_raw_bytes cuts exactly the first "
+             "<CR>-terminated segment per step and stops only when no <CR> is left (chunk independence by induction); "
+             "FAST _socket_writer writes exactly the command it took from the FIFO queue and must not take the next "
+             "one while a confirmation is outstanding (invariant W1 - fails on the real code: known finding F-C14-a).",
+        note="Trusted: pyvc encoding, z3/cvc5 (strings via cvc5), asyncio Event/Queue semantics, integer bit operators "
+             "uninterpreted, bytes as code-point strings. OPP/PKONE _parse_msg (resynchronisation), matrix inputs, "
+             "retry logic of send_and_wait_for_response_processed are not yet under contract.",
+        ref="4.C14"),
 }
 
 NA = {}
